@@ -1,0 +1,18 @@
+//go:build verif
+// +build verif
+
+package slog
+
+// Verification hooks (build tag verif): observation points for external
+// conformance checking. They are compiled out of normal builds.
+
+// VerifHook, when set, is called at each hook point with the name of the
+// point and two words identifying the objects involved (addresses, lengths).
+// It may block, which lets a test harness order concurrent goroutines.
+var VerifHook func(point string, a, b uintptr)
+
+func verifEvent(point string, a, b uintptr) {
+	if h := VerifHook; h != nil {
+		h(point, a, b)
+	}
+}
